@@ -31,7 +31,7 @@ func genC13(t *rapid.T, tier string) HistCase {
 func genC13base(t *rapid.T, tier string) HistCase {
 	return genHist(t, tier, core.GenOpts{
 		Caches:   []string{"none", "none", "big", "arc", "tiny2"},
-		Vals:     []string{core.VInt, core.VString, core.VBytes, core.VLong, core.VPtr, core.VIface, core.VStruct, core.VNil},
+		Vals:     []string{core.VInt, core.VString, core.VBytes, core.VLong, core.VPtr, core.VIface, core.VStruct, core.VNil, core.VTags},
 		BigOneIn: 10,
 	}, c13Weights, 70, 140, 44, 2)
 }
